@@ -919,6 +919,10 @@ func (ctx Ctx) basicLiteral(e *ast.BasicLit) coq.Expr {
 		if strings.ContainsRune(s, '"') {
 			ctx.unsupported(e, "string literals with quotes")
 		}
+		if strings.ContainsRune(s, '\n') {
+			// the printer indents every line, which would change the literal
+			ctx.unsupported(e, "string literals with newlines")
+		}
 		return coq.StringLiteral{Value: s}
 	}
 	if e.Kind == token.INT {
